@@ -175,7 +175,8 @@ def check_join_unit(case):
     nt = False
     for st_ in jr.steps:
         a, b, joined, separate = st_["a"], st_["b"], st_["joined"], st_["separate"]
-        where = f"resolve({st_['kind']}, fragment shift/labels {st_['fragment']}, maxDifference {case['maxdiff']})"
+        maxdiff = st_.get("maxdiff", case["maxdiff"])
+        where = f"resolve({st_['kind']}, fragment shift/labels {st_['fragment']}, maxDifference {maxdiff})"
         req(len(joined) <= 1, "two-joined-records-for-one-query", f"{where}: {len(joined)} joined rows")
         after = (join_unit.snapshot(a), join_unit.snapshot(b))
         req(after == st_["before"], "join-mutates-its-parts",
@@ -188,7 +189,9 @@ def check_join_unit(case):
             req(a.referenceId == b.referenceId == j.referenceId, "joined-across-references", f"{where}: references {a.referenceId}/{b.referenceId} -> {j.referenceId}")
             req(a.orientation == b.orientation == j.orientation, "joined-across-strands", f"{where}: orientations {a.orientation}/{b.orientation} -> {j.orientation}")
             g = max(0.0, max(a.referenceStartPosition, b.referenceStartPosition) - min(a.referenceEndPosition, b.referenceEndPosition))
-            req(g <= case["maxdiff"] + 1e-6, "joined-beyond-maxdifference", f"{where}: parts {g} bp apart")
+            req(g <= maxdiff + 1e-6, "joined-beyond-maxdifference", f"{where}: parts {g} bp apart")
+            if "maxdiff" in st_:
+                cl.append("joined-at-gap-threshold")
             union = set(join_unit.pairs_of(a)) | set(join_unit.pairs_of(b))
             jp = join_unit.pairs_of(j)
             req(set(jp) <= union, "joined-invents-pairs", f"{where}: joined row has pairs not in either part: {sorted(set(jp) - union)[:6]}")
